@@ -50,6 +50,15 @@ theorem C13_stdin_roundtrip (rid : Nat) (hid : rid < 65536) (body rest : Bytes) 
     readStream typeStdin rid (body.length + 2) (stdinRecords rid body ++ rest) = some (body, rest) :=
   readStream_stdin rid hid body rest _ (Nat.lt_succ_self _)
 
+/-- The stdin records do not depend on how the body reader behaves under `io.Copy`: no reader
+(empty body), a reader with `WriteTo` (one big `Write`), or a plain reader returning any positive
+byte counts per call (with or without data on EOF) through `bufio.Writer.ReadFrom` — always full
+records of 65500 bytes, the remainder, the empty record. -/
+theorem C13_stdin_reader_independent (rid : Nat) (ps : List Pair) (body : Bytes) (rk : BodyReader)
+    (hnone : rk = .none → body = []) : clientWireVia rid ps body rk = clientWire rid ps body := by
+  unfold clientWireVia clientWire
+  rw [stdinWire_eq rid body rk hnone]
+
 /-- THE request-direction claim.  For every request id, every list of name-value pairs that
 each fit a single record (`8+len(name)+len(value) ≤ 65500`), in every iteration order, and every
 body: a conforming responder decodes from what `Do` wrote exactly those pairs, in that order,
